@@ -193,20 +193,28 @@ var typeOverride = map[string]string{
 	"flagsRetainBit": "uint8", "flagsQOSBits": "uint8", "flagsDUPBit": "uint8",
 }
 
+var toNatLemmas []string
+
 func emitConst(sb *strings.Builder, leanName string, c constVal) {
 	if t, ok := typeOverride[leanName]; ok && c.typ == "" {
 		c.typ = t
 	}
+	defer func() {
+		if lt := typeMap[c.typ]; c.typ != "Duration" && (lt == "UInt8" || lt == "UInt16") {
+			fmt.Fprintf(sb, "theorem %s_toNat : %s.toNat = %s := rfl\n", leanName, leanName, c.val.String())
+			toNatLemmas = append(toNatLemmas, leanName+"_toNat")
+		}
+	}()
 	if c.typ == "Duration" {
 		ms := new(big.Int).Div(c.val, big.NewInt(1e6))
-		fmt.Fprintf(sb, "def %s : Nat := %s -- milliseconds\n", leanName, ms.String())
+		fmt.Fprintf(sb, "abbrev %s : Nat := %s -- milliseconds\n", leanName, ms.String())
 		return
 	}
 	lt, ok := typeMap[c.typ]
 	if !ok {
 		lt = "Nat"
 	}
-	fmt.Fprintf(sb, "def %s : %s := %s\n", leanName, lt, c.val.String())
+	fmt.Fprintf(sb, "abbrev %s : %s := %s\n", leanName, lt, c.val.String())
 }
 
 // caseNames returns, for the first switch statement inside function fn (optionally the
@@ -342,6 +350,8 @@ func main() {
 		fmt.Fprintf(&sb, "def client_%sHasDefault : Bool := %v\n", fn, def)
 	}
 
+	sb.WriteString("\n/-- rewrites `c.toNat` to its literal for every extracted UInt8/UInt16 constant -/\n")
+	sb.WriteString("macro \"gen_norm\" : tactic => `(tactic| simp only [\n  " + strings.Join(toNatLemmas, ",\n  ") + "] at *)\n")
 	sb.WriteString("\nend Bisquitt.Gen\n")
 	if err := os.WriteFile(out, []byte(sb.String()), 0o644); err != nil {
 		fmt.Fprintln(os.Stderr, err)
